@@ -24,6 +24,12 @@ def directed(rng):
     for fl in (0x40, 0xC0, 0x00, 0x80, 0x01):
         for nb in range(0, 7):
             out.append(R.RxCase([("short-body-valid-crc", R.short_body_frame(rng, fl, nb)), ("valid", v), ("valid", v2)], []))
+    # a frame whose start marker is damaged and whose tail is lost, at the head of the buffer (stream start / right after a
+    # delivered frame): its self-consistent length field must not hold back the frames that follow
+    for k in range(6):
+        nh = R.nosig_header(rng, size=rng.choice([40, 120, 250]), keep=rng.choice([7, 9, 16]))
+        out.append(R.RxCase([("valid", v), ("damaged-marker-truncated", nh), ("valid", v2)], []))
+        out.append(R.RxCase([("damaged-marker-truncated", nh), ("valid", v), ("valid", v2)], [len(nh)] if k % 2 else []))
     # continuation fragment with a corrupted body
     frag = bytearray(build_frame_bytes(None, b"abcdefgh", 0x00))
     frag[-1] ^= 0x10
